@@ -46,6 +46,8 @@ def div (a b : Number) : Outcome Number :=
 
 /-- `powi` -/
 def powi (a : Number) (e : Int) : Outcome Number :=
+  -- unit exponents must stay inside i64 ("Exponent is too large")
+  if a.unit.any (fun kp => kp.2 * e < -9223372036854775808 || kp.2 * e > 9223372036854775807) then .err .generic else
   if e.natAbs * bitSize a.value > hugeBits then .unsupported "huge power" else do
   let v ← a.value.pow e
   pure ⟨v, Dim.pow a.unit e⟩
@@ -72,7 +74,7 @@ def pow (a exp : Number) : Outcome Number :=
       (match a.value with
        | .rational q => if e.num < 0 ∧ q = 0 then .err .generic else powi a e.num
        | .float => powi a e.num)
-    else if e.num = 1 then root a e.den
+    else if e.num = 1 ∧ e.den < 2147483648 then root a e.den
     else if !a.dimless then .err .generic
     else .ok ⟨.float, a.unit⟩
 
